@@ -24,7 +24,7 @@ type OpC11 struct {
 type CaseC11 struct {
 	Map       map[string]interface{} `json:"map"`
 	Ops       []OpC11                `json:"ops"`
-	Unrelated uint16                 `json:"unrelated_opts,omitempty"`
+	Unrelated uint32                 `json:"unrelated_opts,omitempty"`
 }
 
 func init() { register("C11", checkC11) }
@@ -33,6 +33,9 @@ var c11Keys = []string{"a", "b", "c", "d"}
 
 // keys that differ only by white space at their ends are different keys (JSON names; nothing documents trimming)
 var c11SpacedKeys = []string{"a", "a ", " a", "b", "b\t", "c", "c\u00a0", "\nd"}
+
+// keys that look like list subscripts
+var c11NumericKeys = []string{"a", "0", "1", "b", "00", "c", "-1", "2"}
 
 func genMapsOnly(t *rapid.T, d int) map[string]interface{} {
 	m := map[string]interface{}{}
@@ -160,8 +163,11 @@ func applyModel(root map[string]interface{}, op OpC11) (applied bool, kind strin
 func genC11(t *rapid.T) CaseC11 {
 	saved := c11Keys
 	defer func() { c11Keys = saved }()
-	if rapid.IntRange(0, 5).Draw(t, "spaced") == 0 {
+	switch rapid.IntRange(0, 7).Draw(t, "spaced") {
+	case 0:
 		c11Keys = c11SpacedKeys
+	case 1:
+		c11Keys = c11NumericKeys
 	}
 	c := CaseC11{Map: genMapsOnly(t, 3)}
 	model := copyMap(c.Map)
